@@ -55,7 +55,11 @@ def plans(prop, tier):
         on = ["C10"]
         P = [prof(41, nops=n, pool=70, maxlen=3, alpha=3, pput=35, prem=15, pget=0, pscan=0, piscan=50, pmem=0, pprobe=0, dumpevery=0),
              prof(42, nops=n, pool=60, maxlen=3, alpha=3, mode="prefix", pput=35, prem=15, pget=0, pscan=0, piscan=50, pmem=0, pprobe=0, dumpevery=0),
-             prof(43, nops=n, pool=120, maxlen=2, alpha=8, mode="mix", pput=35, prem=15, pget=0, pscan=0, piscan=50, pmem=0, pprobe=0, dumpevery=0)]
+             prof(43, nops=n, pool=120, maxlen=2, alpha=8, mode="mix", pput=35, prem=15, pget=0, pscan=0, piscan=50, pmem=0, pprobe=0, dumpevery=0),
+             # cursor paused by the caller, a write (often into the node under the cursor, with and without early_abort), cursor resumed
+             prof(44, nops=n, pool=60, maxlen=3, alpha=3, mode="prefix", pput=40, prem=12, pget=0, pscan=0, piscan=48, pmem=0, pprobe=0, dumpevery=0, pmod=60),
+             prof(45, nops=n, pool=90, maxlen=3, alpha=3, pput=40, prem=12, pget=0, pscan=0, piscan=48, pmem=0, pprobe=0, dumpevery=0, pmod=60),
+             prof(46, nops=n + 200, pool=200, maxlen=2, alpha=8, mode="mix", pput=55, prem=10, pget=0, pscan=0, piscan=35, pmem=0, pprobe=0, dumpevery=0, pmod=60)]
         M = []
     elif prop == "C12":
         on = ["C12"]
